@@ -934,6 +934,12 @@ func execC13(t *testing.T, w *core.World, p *run.Plan, r *run.Result) {
 	}
 	_ = lastDrainBlock
 	w.Run(func() bool { return false }, w.Steps+120000, drainStart+drain)
+	for i := range servers {
+		for _, g := range servers[i].GarbageFromClient {
+			w.Violate("C13.wire", "C13.wire|client-sent-garbage", fmt.Sprintf("srv%d's ADNL receiver rejected a frame on a connection whose bytes were not altered in transit: %s", i, g))
+			break
+		}
+	}
 	// G: every call has returned: a goroutine of the library that one of the calls started and that is still there long
 	// after is a part of that call that never ended (two or more of a kind: a leak per call)
 	if !p.Free {
